@@ -211,7 +211,19 @@ def run_parallel(modname: str, items: list[Any], procs: int | None = None, chunk
 # -- main ----------------------------------------------------------------
 
 
+def _cleanup_stale_scratch() -> None:
+    """remove /dev/shm/vf-*-<pid> scratch directories whose owning process is gone"""
+    import re
+    import shutil
+
+    for p in Path("/dev/shm").glob("vf-*"):
+        m = re.search(r"-(\d+)$", p.name)
+        if m and not Path(f"/proc/{m.group(1)}").exists():
+            shutil.rmtree(p, ignore_errors=True)
+
+
 def main(modname: str, argv: list[str] | None = None) -> int:
+    _cleanup_stale_scratch()
     ap = argparse.ArgumentParser()
     ap.add_argument("--tier", default=os.environ.get("VERIF_TIER", "quick"), choices=["quick", "thorough"])
     ap.add_argument("--replay", default=None)
